@@ -498,7 +498,22 @@ pub fn run(tier: &str, seed: u64, report: &mut Report) {
         std::fs::create_dir(&src).unwrap();
         let arch_dir = tempfile::tempdir().unwrap();
         let arch_path = arch_dir.path().join("a");
-        let mut tree_desc = build_tree(&mut crng, &src);
+        // directed structural cases (after the directed mtime ones): sibling directories whose names differ by
+        // a suffix that sorts BEFORE '/' ("a" vs "a-" vs "a.b"), one of them with a nested non-empty directory —
+        // where the archive's path order and plain string order of the directory part disagree
+        const STRUCT: &[(&str, &str)] = &[("add", "/a/b/x2"), ("remove", "/a/b/x"), ("add", "/a-/n"), ("remove", "/a-/y"), ("add", "/a/b/0"), ("add", "/a.b/n"), ("remove", "/a/k"), ("add", "/a/b/~")];
+        let struct_case = if case_no >= 10 && case_no < 10 + STRUCT.len() { Some(STRUCT[case_no - 10]) } else { None };
+        let mut tree_desc = if struct_case.is_some() {
+            for d in ["a", "a/b", "a-", "a.b"] {
+                std::fs::create_dir(src.join(d)).unwrap();
+            }
+            for (f, body) in [("a/b/x", "xx"), ("a-/y", "yy"), ("a.b/z", "zz"), ("a/k", "kk")] {
+                std::fs::write(src.join(f), body).unwrap();
+            }
+            vec!["struct: dirs /a /a/b /a- /a.b; files /a/b/x /a-/y /a.b/z /a/k".to_string()]
+        } else {
+            build_tree(&mut crng, &src)
+        };
         // directed cases first: a file whose STORED mtime is a whole second / has a fraction / is at or
         // before the epoch, then changed by a sub-second or whole-second amount only (size, mode, owner equal)
         const DIRECTED: &[(i128, i128)] = &[
@@ -530,6 +545,16 @@ pub fn run(tier: &str, seed: u64, report: &mut Report) {
                 (vec![format!("mtime-only /zz-mt {}", stored + delta)], vec![Expect::Class("/zz-mt".into(), "changed")])
             } else {
                 (vec![], vec![])
+            }
+        } else if let Some((what, ap)) = struct_case {
+            report.hit("mut:directed-structure");
+            let p = fs_path(&src, ap);
+            if what == "add" {
+                std::fs::write(&p, "new").unwrap();
+                (vec![format!("add-file {ap}")], vec![Expect::Class(ap.to_string(), "added")])
+            } else {
+                std::fs::remove_file(&p).unwrap();
+                (vec![format!("remove {ap}")], vec![Expect::SubtreeDeleted(ap.to_string())])
             }
         } else if case_no % 4 == 0 {
             (vec![], vec![])
